@@ -23,6 +23,8 @@ pub struct OwnState {
     pub which: Which,
     pub kv: Kv,
     pub time: u64,
+    /// sub-second part of the block time (the reference machine works in whole seconds, like the statement)
+    pub nanos: u32,
     // reference machine
     pub admin: String,
     pub nominee: Option<String>,
@@ -37,7 +39,11 @@ pub enum OwnAct {
     Transfer { by: String, to: String },
     Revoke { by: String },
     Accept { by: String },
-    Advance { to: u64 },
+    Advance {
+        to: u64,
+        #[serde(default)]
+        nanos: u32,
+    },
     /// an unrelated admin-only operation by the current admin (halt, resume, config update, spend):
     /// it must not disturb a pending handover
     Noise { kind: u8 },
@@ -47,9 +53,15 @@ pub fn principals() -> Vec<String> {
     vec![p20("adm"), p20("B"), p20("C"), p20("D")]
 }
 
+thread_local! {
+    /// sub-second part of the block time of the step being executed (block headers carry nanoseconds)
+    static NANOS: std::cell::Cell<u32> = const { std::cell::Cell::new(0) };
+}
+
 fn env(time: u64) -> Env {
+    let nanos = NANOS.with(|c| c.get());
     Env {
-        block: BlockInfo { height: 1, time: Timestamp::from_seconds(time), chain_id: "sim-1".into() },
+        block: BlockInfo { height: 1, time: Timestamp::from_nanos(time * 1_000_000_000 + nanos as u64), chain_id: "sim-1".into() },
         transaction: Some(TransactionInfo { index: TX_INDEX }),
         contract: ContractInfo { address: Addr::unchecked(if true { contract_addr() } else { String::new() }) },
     }
@@ -208,11 +220,12 @@ impl Scenario for OwnScenario {
         format!("own-{:?}", self.which)
     }
     fn seeds(&self) -> Vec<(String, OwnState)> {
+        NANOS.with(|c| c.set(0));
         let kv = match self.which {
             Which::Staking => World::new(&K::k0()).expect("instantiate").kv,
             Which::Treasury => treasury_kv(&p20("adm"), &p20("trader"), vec![]),
         };
-        vec![("fresh".into(), OwnState { which: self.which, kv, time: T0, admin: p20("adm"), nominee: None, earliest: None, handovers: 0, noise: 0 })]
+        vec![("fresh".into(), OwnState { which: self.which, kv, time: T0, nanos: 0, admin: p20("adm"), nominee: None, earliest: None, handovers: 0, noise: 0 })]
     }
     fn actions(&self, s: &OwnState) -> Vec<OwnAct> {
         let ps = principals();
@@ -232,12 +245,14 @@ impl Scenario for OwnScenario {
         if s.time < T0 + 3 * WEEK {
             if let Some(t) = s.earliest {
                 for c in [t - 1, t, t + 1] {
-                    if c > s.time {
-                        a.push(OwnAct::Advance { to: c });
+                    for nanos in [0u32, 1, 999_999_999] {
+                        if c > s.time || (c == s.time && nanos > s.nanos) {
+                            a.push(OwnAct::Advance { to: c, nanos });
+                        }
                     }
                 }
             }
-            a.push(OwnAct::Advance { to: s.time + 1 });
+            a.push(OwnAct::Advance { to: s.time + 1, nanos: 500_000_000 });
         }
         a
     }
@@ -245,8 +260,10 @@ impl Scenario for OwnScenario {
         let mut n = s.clone();
         let mut violations = vec![];
         let mut tags = vec![];
-        if let OwnAct::Advance { to } = a {
+        NANOS.with(|c| c.set(s.nanos));
+        if let OwnAct::Advance { to, nanos } = a {
             n.time = *to;
+            n.nanos = *nanos;
             return Step { next: Some(n), violations, tags: vec!["Advance:ok".into()], validated: 0, digest: 0 };
         }
         if let OwnAct::Noise { kind } = a {
@@ -331,6 +348,7 @@ impl Scenario for OwnScenario {
         Step { next, violations, tags, validated: 1, digest: 0 }
     }
     fn on_state(&self, s: &OwnState) -> StateObs {
+        NANOS.with(|c| c.set(s.nanos));
         let mut o = StateObs::default();
         // exactly the reference admin has admin rights (a former admin has none)
         let mut with_rights: Vec<String> = vec![];
